@@ -40,6 +40,30 @@ pub fn run(tier: Tier) -> i32 {
             }
         }
     }
+    // a header that declares 2^32 + 64 bytes (the data stops long before): the part that is there decodes like any other
+    // prefix, including a copy from 4560 bytes back (the window is the header's 64 KiB, whatever the declared size)
+    {
+        use crate::refmodel::enc::{self, Sym};
+        let mut prog: Vec<Sym> = (0..40u32).map(|i| Sym::L((i * 7 + 0x61) as u8)).collect();
+        for k in 0..17u32 {
+            prog.push(Sym::M(1 + (k * 5) % 39, 273));
+        }
+        prog.extend([Sym::M(4560, 30), Sym::L(0x31), Sym::M(4600, 9), Sym::S, Sym::L(0x32)]);
+        let e = enc::encode(3, 0, 2, 1 << 16, &prog);
+        if e.bad.is_none() {
+            for declared in [(1u64 << 32) + 64, (1 << 32) + 5000, (1 << 40) + 1, u64::MAX - 1] {
+                let bytes = enc::lzma_file(3, 0, 2, 1 << 16, Some(declared), &e.payload[..e.payload.len() - 5]);
+                let table: Vec<(usize, usize)> = e.table.iter().map(|t| (t.0 + 13, t.1)).filter(|t| t.0 <= bytes.len()).collect();
+                ins.push(In {
+                    label: format!("4800 bytes with copies from 4560 back, header declares {} bytes", declared),
+                    bytes,
+                    opts: Opts { allow_incomplete: true, ..Opts::default() },
+                    mode: Mode::Prefix { full: e.expect.clone(), table, header_len: 13 },
+                    nontriv: true,
+                });
+            }
+        }
+    }
     // liblzma-made files: table from the reference decoder
     for (name, bytes) in corpus::repo_lzma_files(400) {
         let props = bytes[0] as u32;
@@ -114,7 +138,7 @@ pub fn run(tier: Tier) -> i32 {
         let mut jobs: Vec<(usize, usize, usize, usize)> = Vec::new();
         for (ii, inp) in ins.iter().enumerate() {
             if let Mode::Prefix { full, .. } = &inp.mode {
-                if full.len() > 4096 && inp.bytes.len() < 6000 {
+                if full.len() > 4096 && inp.bytes.len() < 6000 && !inp.label.contains("header declares") {
                     let n = inp.bytes.len();
                     for chunk in [1usize, 64, 1000] {
                         for piece in [1usize, 64, n] {
@@ -154,7 +178,7 @@ pub fn run(tier: Tier) -> i32 {
         let mut jobs: Vec<(usize, usize)> = Vec::new();
         for (ii, inp) in ins.iter().enumerate() {
             if let Mode::Prefix { full, .. } = &inp.mode {
-                if (full.len() > 4096 || inp.label.starts_with("mix+size [Header]")) && inp.bytes.len() < 400 {
+                if (full.len() > 4096 || inp.label.starts_with("mix+size [Header]")) && inp.bytes.len() < 400 && !inp.label.contains("header declares") {
                     for k in 0..=inp.bytes.len() {
                         jobs.push((ii, k));
                     }
@@ -190,6 +214,51 @@ pub fn run(tier: Tier) -> i32 {
             }
         });
         ctx.scope_done("flush-at-every-offset", jobs.len() as u64, t3, "one flush() at every input offset of the window-wrapping streams");
+    }
+    // long inputs (linear): megabytes through a window above 1 MiB that is not a multiple of 1 MiB, cut at a few places
+    {
+        use crate::refmodel::enc::{self, Sym};
+        let t4 = Instant::now();
+        let mut jobs: Vec<(String, Vec<u8>, Vec<u8>, usize, usize)> = Vec::new();
+        for dict in tier.pick(vec![0x18_0000u32], vec![0x18_0000u32, 0x10_0000, 0x28_0000]) {
+            let total = dict as usize + 300_000;
+            let mut prog: Vec<Sym> = (0..400u32).map(|b| Sym::L((b * 67 + b / 7 + 3) as u8)).collect();
+            let mut produced = 400usize;
+            let mut k = 0u32;
+            while produced < total {
+                let l = (total - produced).min(273 - (k as usize * 13) % 100);
+                if l >= 2 {
+                    prog.push(Sym::M(if k % 3 == 0 { (produced.min(dict as usize) as u32).saturating_sub(1 + (k * 97) % 500).max(1) } else { 1 + (k * 31) % 390 }, l as u32));
+                    produced += l;
+                } else {
+                    prog.push(Sym::L(k as u8));
+                    produced += 1;
+                }
+                k += 1;
+            }
+            let e = enc::encode(3, 0, 2, dict as u64, &prog);
+            let file = enc::lzma_file(3, 0, 2, dict, Some(e.expect.len() as u64), &e.payload);
+            let n = file.len();
+            for cut in [n, n - 7, n * 9 / 10, n / 2] {
+                for piece in [4096usize, 65536, n] {
+                    jobs.push((format!("{} bytes through a {}-byte window", e.expect.len(), dict), file.clone(), e.expect.clone(), cut, piece));
+                }
+            }
+        }
+        par_for(jobs.len() as u64, |i| {
+            let (label, file, full, cut, piece) = &jobs[i as usize];
+            let mut ops: Vec<SOp> = file[..*cut].chunks(*piece).map(|c| SOp::WriteAll(Hex(c.to_vec()))).collect();
+            ops.push(SOp::Finish);
+            let case = Case::Stream { opts: Opts { allow_incomplete: true, ..Opts::default() }, sk: Sk::default(), ops };
+            let o = run_case(&case);
+            ctx.eval(1);
+            ctx.nontriv(1);
+            let ok = o.ops.iter().all(|r| r.v.is_ok()) && full.starts_with(&o.out.0) && (*cut < file.len() || o.out.0 == *full) && o.out.0.len() + 20_000 >= full.len() * *cut / file.len();
+            if !ok {
+                ctx.violation(&case, &format!("{}: first {} of {} input bytes in {}-byte writes, then finish (incomplete input allowed): every call Ok and the sink holds a prefix of the complete output", label, cut, file.len(), piece), &o, None);
+            }
+        });
+        ctx.scope_done("long-inputs", jobs.len() as u64, t4, "windows of 1.5 MiB (1 MiB, 2.5 MiB) that wrap");
     }
     let a = agg.lock().unwrap();
     ctx.set_extra("finish_probes", json!(a.2));
